@@ -105,7 +105,295 @@ def search(rng, divergent_cases):
     yield from generate(r2, "thorough")
 
 
+
+# ---------------------------------------------------------------- reference (independent of the model)
+
+def ref_put(x):
+    if x <= 240:
+        return [x]
+    if x <= 2287:
+        return [241 + (x - 240) // 256, (x - 240) % 256]
+    if x <= 67823:
+        return [249, (x - 2288) // 256, (x - 2288) % 256]
+    k = max(3, (x.bit_length() + 7) // 8)
+    return [247 + k] + list(x.to_bytes(k, "big"))
+
+
+def ref_len_first(a0):
+    return 1 if a0 <= 240 else 2 if a0 <= 248 else a0 - 246
+
+
+def ref_get(bs):
+    """(width, value) of a complete tagged varint at bs[0:], or (0, None) when bs is too short"""
+    if not bs:
+        return 0, None
+    n = ref_len_first(bs[0])
+    if len(bs) < n:
+        return 0, None
+    a = bs
+    if n == 1:
+        return 1, a[0]
+    if n == 2:
+        return 2, 240 + 256 * (a[0] - 241) + a[1]
+    if n == 3:
+        return 3, 2288 + 256 * a[1] + a[2]
+    return n, int.from_bytes(bytes(a[1:n]), "big")
+
+
+def _values(rng, n_rand):
+    vals = list(_pool(rng))
+    for _ in range(n_rand):
+        vals.append(rand_u64(rng))
+    return vals
+
+
+# ---------------------------------------------------------------- C01 / C04
+
+def generate_rt(rng, tier):
+    n = 2500 if tier == "quick" else 60000
+    for v in _values(rng, n):
+        yield "tagged_rt %d %d" % (v, rng.randint(0, 15))
+    pool = _pool(rng)
+    for v in pool:
+        for w in range(0, 11):
+            yield "tagged_fixed %d %d %d" % (v, w, rng.randint(0, 15))
+    for _ in range(n):
+        yield "tagged_fixed %d %d %d" % (rand_u64(rng), rng.randint(1, 9), rng.randint(0, 15))
+
+
+def _legal_fixed(x, w):
+    return (w == 1 and x <= 240) or (w == 2 and 240 <= x <= 2287) or (w == 3 and 2288 <= x <= 67823) or \
+        (4 <= w <= 9 and x < 256 ** (w - 1))
+
+
+def o_rt(args, c):
+    x = int(args[0])
+    if "fault" in c:
+        return "fault=" + c["fault"]
+    w = int(c["w"])
+    if not 1 <= w <= 9:
+        return "encoder returned width %d outside 1..9" % w
+    for k in ("getw", "get64w", "len", "lenq", "getlen", "getlenq"):
+        if int(c[k]) != w:
+            return "%s=%s differs from encoder's byte count %d" % (k, c[k], w)
+    for k in ("getv", "get64v", "getrv", "getq"):
+        if int(c[k]) != x:
+            return "%s=%s, value was %d" % (k, c[k], x)
+    if c["frame"] != "ok" or c["guard"] != "ok":
+        return "encoder modified bytes outside its %d bytes (frame=%s guard=%s)" % (w, c["frame"], c["guard"])
+    if x <= 0xFFFFFFFF:
+        if c["put32"] != c["put"] or int(c["w32"]) != w or c["frame32"] != "ok":
+            return "32-bit encoder disagrees: %s vs %s" % (c["put32"], c["put"])
+        if int(c["get32w"]) != w or int(c["get32v"]) != x:
+            return "32-bit decoder returned (%s,%s)" % (c["get32w"], c["get32v"])
+    return None
+
+
+def o_rt_c04(args, c):
+    x = int(args[0])
+    if "fault" in c:
+        return "fault=" + c["fault"]
+    if c["put"] != hexs(ref_put(x)):
+        return "bytes %s differ from the documented format %s" % (c["put"], hexs(ref_put(x)))
+    return None
+
+
+def o_fixed(args, c):
+    x, w = int(args[0]), int(args[1])
+    if "fault" in c:
+        return "fault=" + c["fault"]
+    if c.get("guard") != "ok" or c.get("guardq") != "ok":
+        return "write outside the buffer"
+    if not _legal_fixed(x, w):
+        return None
+    if int(c["w"]) != w:
+        return "fixed-width writer returned %s for legal width %d" % (c["w"], w)
+    if c["frame"] != "ok" or c["frameq"] != "ok":
+        return "fixed-width writer modified bytes beyond width %d" % w
+    if c["putq"] != c["put"]:
+        return "quick macro bytes %s differ from function bytes %s" % (c["putq"], c["put"])
+    if int(c["getw"]) != w or int(c["getv"]) != x:
+        return "decode of fixed-width bytes gave (%s,%s), expected (%d,%d)" % (c["getw"], c["getv"], w, x)
+    return None
+
+
+def classify_rt(case, m):
+    t = case.split()
+    if t[0] == "tagged_rt":
+        return "rt-len%s" % m.get("w")
+    if t[0] == "tagged_fixed":
+        return "fixed-w%s-%s" % (t[2], "legal" if _legal_fixed(int(t[1]), int(t[2])) else "illegal")
+    return None
+
+
+def search_rt(rng, divergent):
+    for c in divergent:
+        t = c.split()
+        if t[0] in ("tagged_rt", "tagged_fixed"):
+            x = int(t[1])
+            for d in range(-4, 5):
+                if 0 <= x + d <= U64:
+                    yield " ".join([t[0], str(x + d)] + t[2:])
+    yield from generate_rt(random.Random(rng.getrandbits(32)), "thorough")
+
+
+def generate_c04(rng, tier):
+    n = 2500 if tier == "quick" else 60000
+    pool = _pool(rng)
+    for v in pool:
+        yield "tagged_rt %d 0" % v
+    for _ in range(n):
+        yield "tagged_rt %d 0" % rand_u64(rng)
+
+
+def o_len_mono_pairs(args, c):
+    return None
+
+
+# ---------------------------------------------------------------- C12
+
+def _to_s64(v):
+    return v - (1 << 64) if v >= (1 << 63) else v
+
+
+def generate_add(rng, tier):
+    n = 3000 if tier == "quick" else 50000
+    pool = _pool(rng)
+    edges = [0, 1, -1, 2, -2, 240, -240, 241, 2287, 2288, -2288, 67823, 67824, (1 << 63) - 1, -(1 << 63),
+             (1 << 62), -(1 << 62), 255, 256, -256, 65535, 65536, (1 << 32), -(1 << 32)]
+
+    def one(v, add, force):
+        bs = ref_put(v)
+        return "tagged_add %s %d %d" % (hexs(bs), add, force)
+    for v in pool:
+        for add in (1, -1, 2, -2):
+            yield one(v, add, 0)
+            yield one(v, add, 1)
+    for _ in range(n):
+        v = rng.choice(pool) if rng.random() < 0.5 else rand_u64(rng)
+        r = rng.random()
+        if r < 0.35:
+            add = rng.choice(edges)
+        elif r < 0.6:
+            # land near a boundary
+            t = rng.choice(pool)
+            add = t - _to_s64(v)
+        elif r < 0.8:
+            add = (1 << 63) - 1 - _to_s64(v) + rng.randint(-2, 2)   # around the positive overflow edge
+        else:
+            add = _to_s64(rand_u64(rng))
+        add = max(-(1 << 63), min((1 << 63) - 1, add))
+        yield one(v, add, rng.randint(0, 1))
+
+
+def o_add(args, c):
+    bs = list(bytes.fromhex(args[0][1:]))
+    add, force = int(args[1]), int(args[2])
+    if "fault" in c:
+        return "fault=" + c["fault"]
+    cur, old = ref_get(bs)
+    s = _to_s64(old) + add
+    w = int(c["w"])
+    buf = list(bytes.fromhex(c["buf"][1:]))
+    if c["guard"] != "ok":
+        return "write outside the buffer"
+    if not -(1 << 63) <= s <= (1 << 63) - 1:
+        if w != 0:
+            return "signed overflow but returned width %d" % w
+        if buf[:cur] != bs[:cur] or c["frame"] != "ok":
+            return "signed overflow but bytes changed"
+        return None
+    nv = s & U64
+    enc = ref_put(nv)
+    if w != len(enc):
+        return "returned width %d, the sum %d needs %d" % (w, nv, len(enc))
+    if not force and len(enc) > cur:
+        if buf[:cur] != bs[:cur] or c["frame"] != "ok":
+            return "no-grow add modified the buffer although the sum needs %d > %d bytes" % (len(enc), cur)
+        return None
+    if buf[:len(enc)] != enc:
+        return "stored bytes %s are not the encoding of old+amount = %d" % (c["buf"], nv)
+    if c["frame"] != "ok":
+        return "bytes beyond max(old,new) width modified"
+    if len(enc) < cur and buf[len(enc):cur] != bs[len(enc):cur]:
+        return "bytes beyond the new width were modified"
+    return None
+
+
+def classify_add(case, m):
+    t = case.split()
+    if t[0] != "tagged_add":
+        return None
+    bs = list(bytes.fromhex(t[1][1:]))
+    cur, old = ref_get(bs)
+    s = _to_s64(old) + int(t[2])
+    if not -(1 << 63) <= s <= (1 << 63) - 1:
+        return "overflow"
+    n = len(ref_put(s & U64))
+    return "%s-%s" % ("grow" if t[3] == "1" else "nogrow", "wider" if n > cur else "narrower" if n < cur else "same")
+
+
+# ---------------------------------------------------------------- C14
+
+def generate_getn(rng, tier):
+    n = 3000 if tier == "quick" else 50000
+    pool = _pool(rng)
+    # every truncation of valid encodings
+    for v in pool:
+        bs = ref_put(v)
+        for k in range(0, len(bs) + 1):
+            yield "tagged_getn %s %d" % (hexs(bs[:k]), k)
+    for a0 in range(236, 256):
+        for k in range(0, 11):
+            bs = [a0] + [rng.randint(0, 255) for _ in range(9)]
+            yield "tagged_getn %s %d" % (hexs(bs[:k]), k)
+    for _ in range(n):
+        L = rng.randint(0, 12)
+        bs = [rng.choice([rng.randint(0, 255), rng.randint(240, 255)])] + [rng.randint(0, 255) for _ in range(L)]
+        k = rng.randint(-1, len(bs))
+        yield "tagged_getn %s %d" % (hexs(bs[:max(k, 0)]), k)
+
+
+def o_getn(args, c):
+    bs = list(bytes.fromhex(args[0][1:]))
+    n = int(args[1])
+    if "fault" in c:
+        return "read at or beyond the declared size (fault=%s)" % c["fault"]
+    give = bs[:max(0, min(n, len(bs)))]
+    w, v = ref_get(give)
+    if int(c["w"]) != w:
+        return "returned width %s, expected %d for %d available bytes" % (c["w"], w, len(give))
+    if w and int(c["v"]) != v:
+        return "value %s, expected %d" % (c["v"], v)
+    return None
+
+
+def classify_getn(case, m):
+    t = case.split()
+    if t[0] != "tagged_getn":
+        return None
+    return "short" if m.get("w") == "0" else "complete-len%s" % m.get("w")
+
+
 PARTS = {
+    "C01": dict(coq_props=["Properties_C01_tagged"], files=FILES, generate=generate_rt,
+                rule="tagged: every boundary/literal value +-2 and random bit-lengths through put/get/len/getlen and all "
+                     "quick/32-bit forms at random alignments; fixed-width writer for widths 0..10 on the pool; "
+                     "non-trivial = classes rt-len2..9 and legal fixed widths",
+                oracles={"tagged_rt": o_rt, "tagged_fixed": o_fixed}, classify=classify_rt, search=search_rt,
+                configs_quick=["pinned", "O0"]),
+    "C04": dict(coq_props=["Properties_C04_tagged"], files=FILES, generate=generate_c04,
+                rule="tagged: encoder bytes vs an independent Python reference of the documented sqlite4 format",
+                oracles={"tagged_rt": o_rt_c04}, classify=classify_rt, search=search_rt),
+    "C12": dict(coq_props=["Properties_C12_tagged"], files=FILES + ["src/varint.h"], generate=generate_add,
+                rule="tagged add: (stored value, amount, grow?) with sums crossing every width boundary both ways and "
+                     "the int64 overflow edges; non-trivial = every class except 'nogrow-same'",
+                oracles={"tagged_add": o_add}, classify=classify_add,
+                configs_quick=["pinned", "O0"]),
+    "C14": dict(coq_props=["Properties_C14_tagged"], files=FILES, generate=generate_getn,
+                rule="bounded tagged reader: every truncation of valid encodings and random bytes in an exact-size "
+                     "buffer ending at an inaccessible page",
+                oracles={"tagged_getn": o_getn}, classify=classify_getn),
     "C05": dict(coq_props=["Properties_C05"], files=FILES, rule=RULE, generate=generate,
                 oracles=ORACLES_C05, classify=classify, search=search,
                 assumptions=["memcmp over min(len) then length, as C callers compare keys"],
